@@ -479,7 +479,7 @@ def run(ctx):
     def lap(name):
         timing[name] = round(_time.time() - _t[0], 1)
         _t[0] = _time.time()
-    ctx.proof(extra=['props/Prop_Tie_Freq.v', 'props/Prop_Tie_Rest.v'])  # translation tie: program regenerated from the source + refinement theorems
+    ctx.proof(extra=['props/Prop_Tie_Freq.v', 'props/Prop_Tie_Rest.v', 'props/Prop_Tie_Util.v'])  # translation tie: program regenerated from the source + refinement theorems
     lap('proof')
     rs = np.random.RandomState(seed32(ctx, 1))
     bad = None          # first correspondence disagreement (site, input, observed, expected)
